@@ -19,17 +19,17 @@ META = {
     "design_ref": "DESIGN.md §4 C10",
     "technique": "Coq proof over the reals / as control flow about the Gallina model of matrix_inverse_root and its four solvers (eigh as an oracle with recorded answers; iteration loops with "
                  "max_iterations as fuel) + correspondence evaluated by vm_compute in binary64 inside coqc + certified checker on the implementation's output + measured accuracy against 50-digit mpmath",
-    "level_text": "Proved in Coq (15 theorems, props/C10.v): for A PSD, root p/q, eps > 0, any valid eigh answer and an exactly carried exponent, the eigen path returns THE inverse root: "
+    "level_text": "Proved in Coq (16 theorems, props/C10.v): for A PSD, root p/q, eps > 0, any valid eigh answer and an exactly carried exponent, the eigen path returns THE inverse root: "
                   "X^p (A + eps I)^q = I with X symmetric positive definite (eigen_root_exact); the enhance_stability path returns the same matrix for every symmetric A; the diagonal flag (diagonal PSD input) "
                   "and the 1x1 path (any entry) return the value of the general path (fastpaths_eq_general, via uniqueness of spectral functions); the coupled Newton iterates commute and satisfy "
-                  "X_k^p (A + eps I) = M_k for every iteration count (newton_invariant), so a CONVERGED flag implies |X^p (A + eps I) - I|max <= tolerance for the returned X (converged_flag_sound); "
+                  "X_k^p (A + eps I) = M_k for every iteration count (newton_invariant; higher_order_invariant for the higher-order loop, early stop included), so a CONVERGED flag implies |X^p (A + eps I) - I|max <= tolerance for the returned X (converged_flag_sound); "
                   "as control flow, for every scalar instance including the executed binary64 one: CONVERGED <=> the tolerance test succeeded on the error of the returned coupled matrix (Newton and "
                   "higher-order), iterations <= max_iterations, the higher-order solver returns only if its residual test `error > 0.1` failed and the result is finite (higher_order_guard), "
                   "Newton rejects fractional roots, unknown configurations raise NotImplementedError. "
                   "Tie: the same Gallina term run in binary64 agrees with the real routine on generated PSD inputs (n <= 12 eigen, n <= 8 iterative; scales 1e-6..1e6; roots incl. fractional; all four "
                   "configurations, diagonal flag, 1x1, iteration/tolerance/order settings): X normwise 1e-9 / 1e-6, termination flag, iteration count, exception class, matrix handed to eigh. "
                   "PARTIAL: the accuracy bound c * (n*u*cond/r + tol*cond + exponent-rounding term) is MEASURED, not proved: float32 and float64 against a 50-digit mpmath reference (n <= 16) and a float64 "
-                  "reference (float32, n <= 128); the observed constant is written to the evidence and the check fails above 64. The higher-order invariant X_k^p A_ridge = M_k is not proved (only Newton's).",
+                  "reference (float32, n <= 128); the observed constant is written to the evidence and the check fails above 64.",
     "level_note": "Trusted: Coq kernel + vm_compute; the hand-written model (checked against the code only on generated inputs); the eigh oracle contract (measured by C11); torch.pow = real power; "
                   "eigen_root_exact assumes the binary32 rounding of -1/r is exact (true for r = 1, 2, 4, 8, ...; otherwise the measured bound carries the term |fl32(1/r) - 1/r| * |ln lambda|). "
                   "Nothing is proved about rounding errors; iterative solvers with non-positive roots and order < 2 are outside the model.",
